@@ -35,20 +35,17 @@ func mdConfig(c *mdCluster, ver string) *Config {
 	return conf
 }
 
-// failure mode of every unreachable endpoint of a step: deterministic in (case, step, endpoint)
-func mdModes(idx, k int, down []string, fam string) (map[string]int, []string) {
+// how every candidate of step.Down misbehaves: given by the behaviour (spec/Metadata.tla KSeq)
+func mdModes(step *mdStep) (map[string]int, []string) {
 	m := map[string]int{}
 	names := []string{}
-	for j, ep := range down {
-		mode := mdRefuse
-		if (idx+k+j)%2 == 1 {
-			mode = mdReset
+	for j, ep := range step.Down {
+		name := "refuse"
+		if j < len(step.Modes) {
+			name = step.Modes[j]
 		}
-		if fam == "reach" && idx%150 == 7 && j == 0 {
-			mode = mdSilent // a candidate that accepts the request and never answers (Net.ReadTimeout)
-		}
-		m[ep] = mode
-		names = append(names, mdModeName[mode])
+		m[ep] = mdModeByName[name] // validated when the cases are read
+		names = append(names, name)
 	}
 	return m, names
 }
@@ -118,7 +115,7 @@ func mdRunCase(c *mdCluster, idx int, mc *mdCase, ver string, st *mdStats) (even
 	conf := mdConfig(c, ver)
 	for k := range mc.Steps {
 		step := &mc.Steps[k]
-		modes, modeNames := mdModes(idx, k, step.Down, mc.Fam)
+		modes, modeNames := mdModes(step)
 		c.setWorld(&step.World)
 		c.setModes(modes)
 		ev := kv{"ev": "step", "k": k, "mut": step.Mut, "req": append([]string{}, step.Req...),
@@ -306,6 +303,16 @@ func TestVerifMetadata(t *testing.T) {
 		mc := &mdCase{}
 		if err := json.Unmarshal([]byte(l), mc); err != nil {
 			t.Fatalf("case %d: %v", i, err)
+		}
+		for _, st := range mc.Steps {
+			for _, m := range st.Modes {
+				if _, ok := mdModeByName[m]; !ok {
+					t.Fatalf("case %d: unknown misbehaviour %q", i, m)
+				}
+			}
+			if len(st.Modes) != len(st.Down) {
+				t.Fatalf("case %d: modes and down differ in length", i)
+			}
 		}
 		cases[i] = mc
 	}
